@@ -1,2 +1,3 @@
 import Props.C08
 import Props.C19
+import Props.C15
